@@ -54,6 +54,9 @@ def test_replay():
             print(m.get_cache_stats()); continue
         if kind == "view":
             sim.get_data_cache_entries(); continue
+        if kind == "has":
+            from architecture_simulator.uarch.memory.decoded_address import DecodedAddress
+            m.cache.contains(DecodedAddress(%(ib)d, %(bb)d, addr)); continue
         crossing = (addr & 3) + width > 4
         try:
             if kind == "w":
@@ -96,6 +99,9 @@ def _cache_history(prop, case):
             continue
         if kind in ("table", "stats", "view"):
             ops.append((kind, 0, 0, 0))
+            continue
+        if kind == "has":
+            ops.append((kind, 0, cfg.spell(a), 0))
             continue
         val = 0
         if kind == "w":
